@@ -161,6 +161,7 @@ package parse
 
 //@ func parse.lexSpace
 //@   implements functype:parse.stateFn
+//@   ensures dispatch: result == nil || result == fnid("parse.lexExpression")
 //@   loop 1 invariant linv(l) && l.start == old(l.start) && l.pos >= old(l.pos) && sameview(l.input, old(l.input)) && l.mode == old(l.mode)
 //@   loop 1 decreases len(l.input) - l.pos
 // C14: a maximal run of blanks becomes exactly one WHITESPACE token
@@ -168,16 +169,21 @@ package parse
 
 //@ func parse.lexNumber
 //@   implements functype:parse.stateFn
+//@   ensures dispatch: result == nil || result == fnid("parse.lexExpression")
 //@   loop 1 invariant linv(l) && l.start == old(l.start) && l.pos >= old(l.pos) && sameview(l.input, old(l.input)) && l.mode == old(l.mode)
 //@   loop 1 decreases len(l.input) - l.pos
 
 //@ func parse.lexPunctuation
 //@   implements functype:parse.stateFn
+// C14: what follows a punctuation character is classified by the general dispatcher, whatever the punctuation was and
+// whether or not a blank follows it (a.in and a. in are the same tokens)
+//@   ensures dispatch: result == nil || result == fnid("parse.lexExpression")
 //@   loop 1 invariant linv(l) && l.start == old(l.start) && l.pos >= old(l.pos) && sameview(l.input, old(l.input)) && l.mode == old(l.mode)
 //@   loop 1 decreases len(l.input) - l.pos
 
 //@ func parse.lexName
 //@   implements functype:parse.stateFn
+//@   ensures dispatch: result == nil || result == fnid("parse.lexExpression")
 //@   loop 1 invariant linv(l) && l.start == old(l.start) && l.pos >= old(l.pos) && sameview(l.input, old(l.input)) && l.mode == old(l.mode)
 //@   loop 1 decreases len(l.input) - l.pos
 
